@@ -25,7 +25,10 @@ T == <<
    seq |-> [k \in 1..300 |-> <<1, 2, 4, 8>>[(k % 4) + 1]], qual |-> [k \in 1..300 |-> k % 41], tags |-> <<>>],
   \* a read of 65 537 bases (the length needs the upper half of its 32-bit field), odd length
   [ref |-> 1,  pos |-> 1,   name |-> Name(3), mapq |-> 11, flag |-> 16, cigar |-> <<<<0, 65537>>>>,
-   seq |-> [k \in 1..65537 |-> <<1, 2, 4, 8, 15>>[(k % 5) + 1]], qual |-> [k \in 1..65537 |-> k % 41], tags |-> <<>>]
+   seq |-> [k \in 1..65537 |-> <<1, 2, 4, 8, 15>>[(k % 5) + 1]], qual |-> [k \in 1..65537 |-> k % 41], tags |-> <<>>],
+  \* 16 400 CIGAR operations: four bytes each, more than 65 535 bytes of CIGAR (the byte count does not fit the 16 bits of the operation count)
+  [ref |-> 0,  pos |-> 2,   name |-> Name(1), mapq |-> 12, flag |-> 0,  cigar |-> [k \in 1..16400 |-> <<(k + 1) % 2, 1>>],
+   seq |-> [k \in 1..16400 |-> <<1, 2, 4, 8>>[(k % 4) + 1]], qual |-> [k \in 1..16400 |-> k % 41], tags |-> <<>>]
 >>
 Init == recs = <<>>
 Add == Len(recs) < MaxRecs /\ \E i \in Pick : recs' = Append(recs, T[i])
